@@ -55,7 +55,8 @@ def run(tier, corrupt=False):
     nobs = 0
     samples = []
     with scratch("c20-") as tmp:
-        trees = make_trees([])[:2] + [adversarial_tree()]
+        mt_ = make_trees([])
+        trees = mt_[:2] + [adversarial_tree()] + [t for t in mt_ if t[0] in ("map-refers-to-net-client", "net-refers-to-net-client")]
         for tname, types, progs in trees:
             src = snapshot_repo(tmp / f"w_{tname}")
             xml = tmp / f"xml_{tname}"
@@ -106,10 +107,12 @@ def run(tier, corrupt=False):
             cov["transitions"] += res.generated
             observed_bad = {}
             for rowi, kind, what in rep[0]["bad"]:
-                observed_bad.setdefault(firsts[rowi - 1], set()).add((kind, what))
-            for o in obs:
-                if o["error"]:
-                    v.violation(f"tree {tname}: import fails with first import {o['first']}: {o['error'][:100]}", o["error"], {"tree": tname, "first": o["first"]})
+                if not obs[rowi - 1]["error"]:          # where the import itself failed that is the finding; nothing is bound to judge
+                    observed_bad.setdefault(firsts[rowi - 1], set()).add((kind, what))
+            failing = [o for o in obs if o["error"]]
+            for err in sorted({o["error"] for o in failing}):
+                fs_ = [o["first"] for o in failing if o["error"] == err]
+                v.violation(f"tree {tname}: import fails ({err.split(':')[0]})", f"{err} (first imports: {fs_[:4]}{'...' if len(fs_) > 4 else ''})", {"tree": tname, "firsts": fs_, "error": err})
             # model validity on exactly what the verdict is about
             exps = exports(mods)
             for f in firsts:
